@@ -33,6 +33,21 @@ Definition field_stable (c : wcfg) (fmt : option (str -> str -> str)) (f : field
 Definition doc_shaped (fmt : option (str -> str -> str)) (l : ldocl) : Prop :=
   forall its f, In (LPara its) l -> In (IField f) its -> fmt_shaped_on fmt f = true.
 
+(* the premises of idempotence with a formatter: a second field step changes nothing; the
+   comparators do not see what is being rewritten *)
+Definition stable_on (c : wcfg) (fmt : option (str -> str -> str)) (l : ldocl) : Prop :=
+  forall its f, In (LPara its) l -> In (IField f) its ->
+    field_stable c fmt f /\ fmt_lexes fmt (a_ws_field c fmt f).
+Definition ecmp_invariant_on (ecmp : option pair_cmp) (fmt : option (str -> str -> str)) (l : ldocl) : Prop :=
+  forall its f g, In (LPara its) l -> In (IField f) its -> In (IField g) its ->
+    match ecmp with Some e => e (a_pair fmt f) (a_pair fmt g) = e (field_pair f) (field_pair g) | None => True end.
+Definition pcmp_invariant_on (pcmp : option para_cmp) (ecmp : option pair_cmp) (fmt : option (str -> str -> str)) (l : ldocl) : Prop :=
+  forall a b, In (LPara a) l -> In (LPara b) l ->
+    match pcmp with
+    | Some p => p (spec_para ecmp fmt a) (spec_para ecmp fmt b) = p (flat_map item_pairs a) (flat_map item_pairs b)
+    | None => True
+    end.
+
 (* ---------------------------------------------------------------- comparators, variants, witnesses, formatters *)
 (* |a, b| a.key().cmp(&b.key()) *)
 Definition name_cmp : pair_cmp := fun a b => str_cmp (fst a) (fst b).
